@@ -70,6 +70,25 @@ RunLoad(f, i, buf, acc) ==
        ELSE RunLoad(f, i + 1, <<>>, emit(buf \o line))
 Load(f) == RunLoad(f, 1, <<>>, <<>>)
 
+\* ---------------------------------------------------------------- definitions that do not compile
+\* createAndAddFunc: the body is compiled by the loading compiler (keyBuilder.go Compile, C09's parse model SX!CompileF)
+\* under the function table it has AT THAT MOMENT: the builtins and the definitions registered so far.  A body with a
+\* compile error (unknown function - a misspelt helper, a call of a definition that itself failed or comes later -, an
+\* unterminated or empty statement) is reported and NOT registered; the loader goes on with the next definition, and
+\* whatever compiled is delivered to the function table (funclib.TryAddFunctions registers what it is handed even when
+\* the loader also reports errors).  So a file means: every definition that compiles in its place - the failing ones are
+\* as if they were not written.
+SX == INSTANCE ExprSyntax
+CompilesB(body, names) == SX!CompileF(body, [n \in names |-> 0]).er = <<>>
+NamesOf(ds) == {ds[i].name : i \in 1..Len(ds)}
+RECURSIVE RegisterFrom(_, _, _, _)
+RegisterFrom(ds, builtins, i, acc) ==
+  IF i > Len(ds) THEN acc
+  ELSE RegisterFrom(ds, builtins, i + 1,
+                    IF CompilesB(ds[i].body, builtins \cup NamesOf(acc)) THEN Append(acc, ds[i]) ELSE acc)
+Registered(ds, builtins) == RegisterFrom(ds, builtins, 1, <<>>)
+LoadC(f, builtins) == Registered(Load(f), builtins)
+
 \* the bytes of the file: lines joined by LF; `nl`: whether the last line is terminated
 RECURSIVE FileBytes(_, _)
 FileBytes(f, nl) ==
